@@ -36,6 +36,11 @@ type harnessCfg struct {
 	Intercept map[string]string `json:"intercept"`
 	Inpkg     bool              `json:"inpkg"`
 	Bounds    string            `json:"bounds"`
+	// Only: when set, only violation candidates whose assertion label starts with one of
+	// these prefixes count under this property (Go panics always count). Used to carry the
+	// C01 obligations of other properties' harnesses under C01 without re-reporting their
+	// own assertions there.
+	Only []string `json:"only"`
 }
 
 type propCfg struct {
